@@ -63,6 +63,10 @@ _uid = [0]
 def make_job(rng, sv, doc):
     """Returns (label, thunk, reference thunk, comparer-normaliser)."""
     r = rng.random()
+    if r < .12:
+        # names nobody lower-cased yet in this process (a fresh suffix per schedule, see instantiate)
+        return ('compile', rng.choice(['p[data-u{uid}~=x]:nth-child(2)', 'tag{uid}.c{uid}:lang(en)', '[A{uid}=b i]:dir(ltr)', ':is(x{uid}, y{uid}) > [b{uid}]']),
+                'uid')
     if r < .5:
         pat = rng.choice(SPECIAL) if rng.random() < .75 else rng.choice(ORDINARY)
         if rng.random() < .3:
@@ -84,12 +88,14 @@ def make_job(rng, sv, doc):
 def instantiate(jobs):
     """Give every job that wants a custom map an equal-but-distinct dict whose content is new for this schedule
     (so that nothing derived from an equal mapping can have been cached by an earlier schedule)."""
-    if not any(j[2] == 'fresh' for j in jobs):
+    if not any(j[2] in ('fresh', 'uid') for j in jobs):
         return jobs, False
     _uid[0] += 1
     out = []
-    for j in jobs:
-        if j[2] == 'fresh':
+    for k, j in enumerate(jobs):
+        if j[2] == 'uid':
+            out.append((j[0], j[1].replace('{uid}', '%dx%d' % (_uid[0], k)), None))
+        elif j[2] == 'fresh':
             out.append((j[0], j[1], {':--al': 'a.k%d, .x' % _uid[0], ':--Nest': ':--al > b.n%d' % _uid[0]}))
         else:
             out.append(j)
@@ -203,6 +209,13 @@ def run_unit(u):
     cn = res['counters']
     sigs = set()
     doc = bs4.BeautifulSoup(DOC, 'html.parser')
+    # warm-up: more distinct names than any process-wide memo of lower-cased names can hold
+    for i in range(700):
+        try:
+            sv.compile('w%d[data-w%d]' % (i, i))
+        except Exception:  # noqa: BLE001
+            pass
+    sv.purge()
 
     def bump(k, n=1):
         cn[k] = cn.get(k, 0) + n
